@@ -282,10 +282,76 @@ def _install_index(ev, Rterm):
                 raise Unsupported("string index `%s` at line %d" % (node_src(e.slice), e.lineno))
         return Evaluator.ev(ev, e)
 
+    # positions relative to R = len & ~3, for code that walks the tail with an index: with len % 4 = r known,
+    # len = R + r, so `length - 1`, `roundedEnd - 1`, comparisons between them and a range() over them are decided
+    def as_idx(v):
+        if isinstance(v, Idx):
+            return v
+        if isinstance(v, T):
+            if id(v) in ev._idx_of:
+                return ev._idx_of[id(v)]
+            if v.t == Rterm:
+                return Idx("R", 0)
+            if v.t == ("sym", "len") and v.exact is None and ev.len_low2 is not None:
+                return Idx("R", ev.len_low2)
+        return None
+
+    def binop2(e, l, r):
+        if isinstance(e.op, (ast.Add, ast.Sub)):
+            for a, b, swapped in ((l, r, False), (r, l, True)):
+                ai = as_idx(a) if isinstance(a, T) else None
+                if ai is not None and ai.base == "R" and isinstance(b, T) and b.exact is not None and not (swapped and isinstance(e.op, ast.Sub)):
+                    res = orig_binop(e, l, r)
+                    off = ai.off + (b.exact if isinstance(e.op, ast.Add) else -b.exact)
+                    ev._idx_of[id(res)] = Idx("R", off)
+                    ev._keep.append(res)
+                    return res
+        return binop(e, l, r)
+
+    orig_cmp = ev.cmp
+
+    def cmp2(op, l, r, node):
+        a, b = as_idx(l), as_idx(r)
+        if a is not None and b is not None and a.base == b.base and isinstance(op, (ast.Lt, ast.LtE, ast.Gt, ast.GtE, ast.Eq, ast.NotEq)):
+            x, y = a.off, b.off
+            return {ast.Eq: x == y, ast.NotEq: x != y, ast.Lt: x < y, ast.LtE: x <= y, ast.Gt: x > y, ast.GtE: x >= y}[type(op)]
+        return orig_cmp(op, l, r, node)
+
+    orig_stmt = ev.stmt
+
+    def stmt2(st):
+        if isinstance(st, ast.For) and isinstance(st.iter, ast.Call) and isinstance(st.iter.func, ast.Name) and st.iter.func.id == "range" and isinstance(st.target, ast.Name) and not st.orelse:
+            vals = [ev.ev(a) for a in st.iter.args]
+            ev.calls.add("range")
+            if len(vals) == 1:
+                vals = [te.tconst(0), vals[0], te.tconst(1)]
+            elif len(vals) == 2:
+                vals = vals + [te.tconst(1)]
+            lo, hi = as_idx(vals[0]), as_idx(vals[1])
+            if lo is None and isinstance(vals[0], T) and vals[0].exact is not None:
+                lo = Idx("0", vals[0].exact)
+            if hi is None and isinstance(vals[1], T) and vals[1].exact is not None:
+                hi = Idx("0", vals[1].exact)
+            step = vals[2].exact if isinstance(vals[2], T) else None
+            if lo is None or hi is None or lo.base != hi.base or not step:
+                raise Unsupported("loop `for %s in %s` at line %d: bounds are not positions relative to the last full block" % (st.target.id, node_src(st.iter), st.lineno))
+            offs = list(range(lo.off, hi.off, step))
+            if len(offs) > 8:
+                raise Unsupported("loop at line %d runs %d times" % (st.lineno, len(offs)))
+            for o_ in offs:
+                ev.env[st.target.id] = Idx(lo.base, o_)
+                res = ev.block(st.body)
+                if res is not None:
+                    return res
+            return None
+        return orig_stmt(st)
+
     ev._idx_of = {}
     ev._keep = []
-    ev.binop = binop
+    ev.binop = binop2
     ev.ev = evx
+    ev.cmp = cmp2
+    ev.stmt = stmt2
 
 
 def _cmp(rule, ok, got, want, what, construct, msg, fn, node):
